@@ -117,6 +117,9 @@ def record_scale_trace(spec):
     elif kind == "trend":
         x = rng.standard_normal(N) + 3.0 + 0.01 * t
         y = np.roll(x, 3) + 0.3 * rng.standard_normal(N) - 1e-5 * t * t
+    elif kind == "hugeoffset":   # a constant offset 1e12 times the fluctuations: mean removal must happen before the projection
+        x = 1e9 + 1e-3 * rng.standard_normal(N)
+        y = -5e8 + 1e-3 * (0.5 * (x - 1e9) / 1e-3 + rng.standard_normal(N))
     elif kind == "line":  # coherent line at the analysis frequency far above a tiny noise floor: large mean, tiny scatter
         om0 = spec["omega"]
         x = np.cos(om0 * t + 0.3) + 1e-7 * rng.standard_normal(N)
@@ -134,7 +137,9 @@ def record_scale_trace(spec):
             starts[j] += rng.integers(-(d // 2), d // 2 + 1, size=j.size)
             starts = np.clip(starts, 0, N - L)
     wname = spec["win"]
-    if wname == "kaiser":
+    if kind == "hugeoffset":
+        w = np.kaiser(L + 1, 25.4)[:-1]          # 200 dB side lobes: the rounding error of the removed mean (a DC term) cannot leak
+    elif wname == "kaiser":
         w = np.kaiser(L + 1, 10.0)[:-1]
     elif wname == "hann":
         w = np.hanning(L) if L > 2 else np.ones(L)
@@ -150,8 +155,10 @@ def record_scale_trace(spec):
     if order >= 1:
         args.append(core._build_Q(L, order))
     ref = _definition(x, y, starts, L, w, om, order, mode)
-    bx = float(np.sum(np.abs(w))) * float(np.max(np.abs(x)))
-    by = bx if mode == "auto" else float(np.sum(np.abs(w))) * float(np.max(np.abs(y)))
+    xm = x - x.mean() if (order >= 0 and kind == "hugeoffset") else x          # what the recurrence actually sees
+    ym = y - y.mean() if (order >= 0 and kind == "hugeoffset") else y
+    bx = float(np.sum(np.abs(w))) * float(np.max(np.abs(xm)))
+    by = bx if mode == "auto" else float(np.sum(np.abs(w))) * float(np.max(np.abs(ym)))
     s = max(ref[0], ref[1])
     # rounding budget of the recurrence, in quanta (see DESIGN.md C01)
     if not (s > 1e-20 * max(bx * by, 1e-300)):
@@ -159,6 +166,13 @@ def record_scale_trace(spec):
         return {"meta": dict(spec), "c": {"budget": 10 ** 6}, "ev": []}
     budget = int(min(10 ** 6, math.ceil(2 ** 20 * 2.0 * bx * by * 8 * 2.2e-16 * L * L / s)))
     runs = [("definition", ref)]
+    if mode == "csd":
+        # the auto-spectral kernels of both backends at the very same (L, starts, window, omega) first: nothing computed for
+        # one kind of call may leak into the next
+        aname = kc.kernel_name(order, "auto")
+        aargs = [x, starts, L, w, om] + ([args[-1]] if order >= 1 else [])
+        getattr(core, aname + "_np")(*aargs)
+        getattr(core, aname)(*aargs)
     runs.append(("numba", tuple(float(v) for v in getattr(core, name)(*args))))
     runs.append(("numpy", tuple(float(v) for v in getattr(core, name + "_np")(*args))))
     if K >= 2:
@@ -187,6 +201,12 @@ def scale_specs(tier, seed):
     for (K, order, mode) in ((8192 + 809, 2, "csd"), (16384 + 1201, 1, "auto"), (32768 + 333, 0, "csd"), (32768 + 77, -1, "auto")):
         specs.append(dict(seed=rnd.randrange(2 ** 31), N=140000, L=rnd.choice([8, 12, 16]), K=K, order=order, mode=mode, data="white",
                           win="hann", omega=0.9 + 0.3 * rnd.random(), cuda=False, starts="random"))
+    for (L, mode) in ((2048, "csd"), (2304, "csd"), (2048, "auto")):          # long segments
+        specs.append(dict(seed=rnd.randrange(2 ** 31), N=4096, L=L, K=3, order=rnd.choice([-1, 0]), mode=mode, data="white", win="hann",
+                          omega=0.5 + rnd.random(), cuda=False, starts="random"))
+    for k in range(6):                                                         # huge constant offset, order 0 only (see DESIGN 9.4)
+        specs.append(dict(seed=rnd.randrange(2 ** 31), N=4096, L=rnd.choice([256, 600, 1000]), K=rnd.choice([1, 3, 9]), order=0, mode=["auto", "csd"][k % 2],
+                          data="hugeoffset", win="kaiser", omega=0.3 + 2.5 * rnd.random(), cuda=False, starts="random"))
     for i in range(n):
         N = rnd.choice([256, 1000, 4096])
         L = rnd.choice([1, 2, 3, 7, 16, 33, 100, 255, N // 4, N // 2, N]) if i % 3 else rnd.randint(1, min(N, 1500))
